@@ -60,9 +60,10 @@ structure LogObs (K : Type) where
   le : K
   w : K
 
-/-- `Source.get_log_fluxes`, one band.  `lg` is `log10`, `ln10` is `np.log(10.)`.
-    Flag 9 points are transformed only when their flux is positive (they are for plotting only);
-    everything else not named stays zero, as in the code's `np.zeros` initialisation. -/
+/-- `Source.get_log_fluxes` as seen by `Models.fit`, one band.  `lg` is `log10`, `ln10` is
+    `np.log(10.)`.  Flag 9 points are transformed for display only; `Models.fit` blanks their log
+    flux (`log_flux[valid == 9] = 0`) and their weight is zero, so the fitter sees zeros.  Flags not
+    named stay zero, as in the code's `np.zeros` initialisation. -/
 def logTransform (lg : K → K) (ln10 : K) (o : Obs K) : LogObs K :=
   let rel := o.err / o.flux
   if o.flag = 1 then
@@ -72,9 +73,6 @@ def logTransform (lg : K → K) (ln10 : K) (o : Obs K) : LogObs K :=
     ⟨o.flag, lg o.flux, o.err, 0⟩
   else if o.flag = 4 then
     ⟨4, o.flux, o.err, 1 / (o.err * o.err)⟩
-  else if o.flag = 9 then
-    if 0 < o.flux then ⟨9, lg o.flux - rel * rel / two / ln10, absK rel / ln10, 0⟩
-    else ⟨9, 0, 0, 0⟩
   else ⟨o.flag, 0, 0, 0⟩
 
 /-- the code's scale pattern `sc_law = −2` -/
